@@ -315,9 +315,9 @@ fn contract_stream(ctx: &Ctx, cases: &[Case], o: &mut Outcome) {
     if let Ok(resp) = ctx.model.run_robust(&reqs) {
         for (k, r) in resp.iter().enumerate() {
             o.bump("s7_contracts_checked", 1);
-            if r != "K 1 1" && !r.starts_with("P ") {
+            if r != "K 1 1 1" && !r.starts_with("P ") {
                 o.bump("s7_contract_failures", 1);
-                o.model_diffs.push((cases[idx[k]].clone(), "K 1 1".into(), r.clone()));
+                o.model_diffs.push((cases[idx[k]].clone(), "K 1 1 1".into(), r.clone()));
             }
         }
     }
